@@ -17,6 +17,9 @@ EXPLANATION = (
 EXPLANATION += (
     ' D2 examines every test on a multi-item component: the len > 1 gate dominates the rejection, and the rejection does not depend on how many constants the component holds.'
 )
+EXPLANATION += (  # round-3 supplement
+    ' D1/D3 follow helpers (node registration, the constant define/finalize/call/insert chain) and identify values by role; D2 also understands the component test written as an iterator chain.'
+)
 ASSUMPTIONS = [
     "Tarjan's SCC implementation returns components in reverse topological order (trusted; covered by the crate's unit tests)",
 ]
